@@ -25,9 +25,11 @@ use serde_json::{json, Value};
 use verif_core::*;
 
 pub const VARIANTS: [&str; 8] = ["sx1261", "sx1262", "stm32wl-hp", "stm32wl-lp", "sx1276-rfo", "sx1276-boost", "sx1272-rfo", "sx1272-boost"];
-pub const PATHS: [&str; 2] = ["kind", "prepare_for_tx"];
+pub const PATHS: [&str; 3] = ["kind", "prepare_for_tx", "lorawan-tx"];
 /// band classes: unknown (no modulation parameters given), below 400 MHz, above
-pub const BANDS: [Option<u32>; 4] = [None, Some(169_400_000), Some(433_175_000), Some(868_100_000)];
+/// band classes: unknown (no modulation parameters given), below 400 MHz (incl. the last Hz below the SX1261 +15 dBm
+/// threshold), exactly at it, and the 433 / 868 / 915 MHz bands
+pub const BANDS: [Option<u32>; 8] = [None, Some(169_400_000), Some(399_999_999), Some(400_000_000), Some(433_175_000), Some(868_100_000), Some(915_000_000), Some(1_020_000_000)];
 
 #[derive(Clone, Copy)]
 struct Row {
@@ -62,10 +64,12 @@ pub struct Case {
     pub dbm: i64,
     pub band: Option<u32>,
     pub tx_prep: bool,
+    /// board options: bit 0 rx_boost, bit 1 DC-DC (SX126x; on SX127x the PA pin comes from the variant), bit 2 TCXO
+    pub board: u8,
 }
 impl Case {
     pub fn json(&self) -> Value {
-        json!({"kind":"power","variant":VARIANTS[self.variant],"path":PATHS[self.path],"dbm":self.dbm,"band_hz":self.band,"tx_prep":self.tx_prep})
+        json!({"kind":"power","variant":VARIANTS[self.variant],"path":PATHS[self.path],"dbm":self.dbm,"band_hz":self.band,"tx_prep":self.tx_prep,"board_options":self.board})
     }
     pub fn from_json(v: &Value) -> Option<Case> {
         Some(Case {
@@ -74,6 +78,7 @@ impl Case {
             dbm: v["dbm"].as_i64()?,
             band: v["band_hz"].as_u64().map(|x| x as u32),
             tx_prep: v["tx_prep"].as_bool().unwrap_or(true),
+            board: v["board_options"].as_u64().unwrap_or(0) as u8,
         })
     }
 }
@@ -107,6 +112,20 @@ fn drive_lora<RK: RadioKind>(radio: RK, c: &Case, after_init: &dyn Fn()) -> Resu
     block_on(lora.prepare_for_tx(&mp, &mut pp, c.dbm as i32, &[1, 2, 3]))
 }
 
+/// LorawanRadio::tx with the requested power (TxConfig.pw is an i8)
+fn drive_lw<RK: RadioKind>(radio: RK, c: &Case, after_init: &dyn Fn()) -> Result<(), RadioError> {
+    use lorawan_device::async_device::radio::{PhyRxTx, RfConfig, TxConfig};
+    let lora = block_on(LoRa::new(radio, true, Delay))?;
+    let mut lw: lora_phy::lorawan_radio::LorawanRadio<RK, Delay, 22> = lora.into();
+    let rf = RfConfig { frequency: c.band.unwrap_or(868_100_000), bb: lora_modulation::BaseBandModulationParams::new(SpreadingFactor::_9, Bandwidth::_125KHz, CodingRate::_4_5), max_payload_len: 255 };
+    after_init();
+    match block_on(lw.tx(TxConfig { pw: c.dbm as i8, rf }, &[0x40, 1, 2, 3, 4, 0, 0, 0, 1, 9, 9, 9, 9])) {
+        Ok(_) => Ok(()),
+        Err(lora_phy::lorawan_radio::Error::Radio(e)) => Err(e),
+        Err(_) => Err(RadioError::InvalidConfiguration),
+    }
+}
+
 fn observe(c: &Case) -> Obs {
     let v = VARIANTS[c.variant];
     if c.variant < 4 {
@@ -117,9 +136,11 @@ fn observe(c: &Case) -> Obs {
         };
         macro_rules! go {
             ($variant:expr) => {{
-                let (mut r, _) = rig::sx126x(&chip, $variant, false);
+                let (mut r, _) = rig::sx126x_board(&chip, $variant, c.board);
                 if PATHS[c.path] == "kind" {
                     drive_kind(&mut r, c)
+                } else if PATHS[c.path] == "lorawan-tx" {
+                    drive_lw(r, c, &clear)
                 } else {
                     drive_lora(r, c, &clear)
                 }
@@ -147,16 +168,20 @@ fn observe(c: &Case) -> Obs {
             move || ch.borrow_mut().clear_written()
         };
         let r = if kind == Kind::Sx1276 {
-            let (mut r, _) = rig::sx1276(&chip, boost, false);
+            let (mut r, _) = rig::sx1276_board(&chip, (c.board & 5) | if boost { 2 } else { 0 });
             if PATHS[c.path] == "kind" {
                 drive_kind(&mut r, c)
+            } else if PATHS[c.path] == "lorawan-tx" {
+                drive_lw(r, c, &clear)
             } else {
                 drive_lora(r, c, &clear)
             }
         } else {
-            let (mut r, _) = rig::sx1272(&chip, boost, false);
+            let (mut r, _) = rig::sx1272_board(&chip, (c.board & 5) | if boost { 2 } else { 0 });
             if PATHS[c.path] == "kind" {
                 drive_kind(&mut r, c)
+            } else if PATHS[c.path] == "lorawan-tx" {
+                drive_lw(r, c, &clear)
             } else {
                 drive_lora(r, c, &clear)
             }
@@ -338,36 +363,48 @@ pub fn sweep(ti: usize, n: usize, st: &mut Stats) {
     for variant in 0..VARIANTS.len() {
         for path in 0..PATHS.len() {
             for band in BANDS {
-                if path == 1 && band.is_none() {
-                    continue; // prepare_for_tx always knows the frequency
+                if path != 0 && band.is_none() {
+                    continue; // prepare_for_tx / the adapter always know the frequency
                 }
                 for tx_prep in [true, false] {
-                    if path == 1 && !tx_prep {
+                    if path != 0 && !tx_prep {
                         continue;
                     }
-                    for &dbm in reqs.iter() {
-                        if path == 1 && !(-128..=127).contains(&dbm) {
-                            continue;
+                    // board options: all 8 combinations at the RadioKind level, none / all through LoRa, none through the adapter
+                    let boards: &[u8] = match path {
+                        0 => &[0, 1, 2, 3, 4, 5, 6, 7],
+                        1 => &[0, 7],
+                        _ => &[0],
+                    };
+                    for &board in boards {
+                        if VARIANTS[variant].starts_with("sx127") && board & 2 != 0 {
+                            continue; // the PA pin of the SX127x boards is the variant itself
                         }
-                        k += 1;
-                        if k % n != ti {
-                            continue;
-                        }
-                        let c = Case { variant, path, dbm, band, tx_prep };
-                        st.eval();
-                        st.class(&format!("power:{}", VARIANTS[variant]));
-                        let (lo, hi) = range_of(variant, band);
-                        if dbm <= lo || dbm >= hi {
-                            st.nt_distinct();
-                            st.class("power:at-or-beyond-clamp-edge");
-                        }
-                        match run_case(&c) {
-                            Ok(()) => {
-                                if st.samples.len() < 4 && (k % 997 == 5) {
-                                    st.sample(c.json());
-                                }
+                        for &dbm in reqs.iter() {
+                            if path != 0 && !(-128..=127).contains(&dbm) {
+                                continue;
                             }
-                            Err(f) => st.fail(f),
+                            k += 1;
+                            if k % n != ti {
+                                continue;
+                            }
+                            let c = Case { variant, path, dbm, band, tx_prep, board };
+                            st.eval();
+                            st.class(&format!("power:{}", VARIANTS[variant]));
+                            st.class(&format!("power:path:{}", PATHS[path]));
+                            let (lo, hi) = range_of(variant, band);
+                            if dbm <= lo || dbm >= hi {
+                                st.nt_distinct();
+                                st.class("power:at-or-beyond-clamp-edge");
+                            }
+                            match run_case(&c) {
+                                Ok(()) => {
+                                    if st.samples.len() < 4 && (k % 997 == 5) {
+                                        st.sample(c.json());
+                                    }
+                                }
+                                Err(f) => st.fail(f),
+                            }
                         }
                     }
                 }
